@@ -83,7 +83,19 @@ func genC03Tracker(t *rapid.T) c3Case {
 		if i > 0 && rapid.IntRange(0, 3).Draw(t, "collide") == 0 {
 			prev := c.Paths[rapid.IntRange(0, len(c.Paths)-1).Draw(t, "prev")]
 			segs := strings.Split(prev, "/")
-			switch rapid.IntRange(0, 3).Draw(t, "how") {
+			switch rapid.IntRange(0, 5).Draw(t, "how") {
+			case 4: // the name the last-resort numbering would hand out for prev (all segments joined + a number), as a package of its own
+				p = strings.ToLower(strings.NewReplacer("-", "", "_", "", ".", "", "/", "").Replace(prev)) + rapid.SampledFrom([]string{"2", "3", "2", "4"}).Draw(t, "number")
+				if rapid.Bool().Draw(t, "numhost") {
+					p = rapid.SampledFrom(c3Hosts).Draw(t, "host3") + "/" + p
+				}
+			case 5: // same letters, punctuation added inside the last segment (exhausts the name candidates of prev's family)
+				last := segs[len(segs)-1]
+				if rs := []rune(last); len(rs) >= 2 {
+					k := rapid.IntRange(1, len(rs)-1).Draw(t, "punctat")
+					last = string(rs[:k]) + rapid.SampledFrom([]string{"-", "_", "."}).Draw(t, "punct") + string(rs[k:])
+				}
+				p = strings.Join(append(append([]string{}, segs[:len(segs)-1]...), last), "/")
 			case 0: // same last segment, other prefix
 				p = rapid.SampledFrom(c3Hosts).Draw(t, "host2") + "/" + rapid.SampledFrom(c3Segments).Draw(t, "mid") + "/" + segs[len(segs)-1]
 			case 1: // the joined name of prev as a single segment (takes its fallback candidates)
